@@ -10,15 +10,21 @@ from harness import ir
 from harness.ir import *  # pylint: disable=wildcard-import,unused-wildcard-import
 
 
-def Walk(x, fn):
-  """Applies fn to every dict node (pre-order), in place."""
+def Walk(x, fn, _seen=None):
+  """Applies fn to every dict node (pre-order), in place; a node object that
+  is reachable along several paths is visited once."""
+  if _seen is None:
+    _seen = set()
   if isinstance(x, dict):
+    if id(x) in _seen:
+      return
+    _seen.add(id(x))
     fn(x)
     for v in x.values():
-      Walk(v, fn)
+      Walk(v, fn, _seen)
   elif isinstance(x, list):
     for v in x:
-      Walk(v, fn)
+      Walk(v, fn, _seen)
 
 
 # ---- C07: permutations ------------------------------------------------------------
